@@ -65,7 +65,7 @@ def run(spec, ctx, pid):
     real = real_execute(spec, argv, ctx.scratch)
     Tr = TR.Truth(m, real['trace'])
     a = observables(m, Ts, sim.text, sim.verdict)
-    b = observables(m, Tr, real['stdout'], real['exit'] != 0)
+    b = observables(m, Tr, core.ANSI_RE.sub('', real['stdout']), real['exit'] != 0)
     if sim.raised or sim.hang:
         raise core.HarnessError('stub validation: simulated run aborted: %r'
                                 % (sim.raised or sim.hang,))
